@@ -1393,6 +1393,14 @@ def backward(ex, t):
     ex.events.append(('backward', t))
     for leaf in ex.tracked_leaves():
         if leaf.tid in t.deps or leaf is t:
+            old = getattr(leaf, 'grad', None)
+            if isinstance(old, STensor):
+                # torch ACCUMULATES into an existing .grad, in place: the same tensor object now holds old + d t / d leaf
+                prev = old.ghost.get('grad_of')
+                old.ghost['grad_of'] = ('accumulated', prev, (t, leaf))
+                old.ghost['accumulated'] = True
+                ex.events.append(('grad_accumulated', leaf))
+                continue
             g = T.opaque_tensor(leaf.shape, leaf.dtype, 'grad')
             g.ghost['grad_of'] = (t, leaf)
             leaf.grad = g
